@@ -82,6 +82,10 @@ public:
         m_fac_H.rightCols(m_m - from_k).setZero();
         m_fac_H.block(from_k, 0, m_m - from_k, from_k).setZero();
 
+        // An estimate of the magnitude of A: the largest ||A * v|| seen so far, which can be
+        // read from H and beta. Whether ||f|| is "small" is decided relative to it.
+        RealScalar anorm = (std::max)(m_beta, RealScalar(m_fac_H.topLeftCorner(from_k, from_k).cwiseAbs().maxCoeff()));
+
         for (Index i = from_k; i <= to_m - 1; i++)
         {
             // If beta = 0, then the next V is not full rank
@@ -101,7 +105,7 @@ public:
             {
                 // Save v <- f / ||f|| to the (i+1)-th column of V
                 v.noalias() = m_fac_f / m_beta;
-                if (m_beta < eps_sqrt)
+                if (m_beta < eps_sqrt * anorm)
                 {
                     // Test (Vi^H)v
                     const Scalar Viv = m_op.inner_product(m_fac_V.col(i - 1), v);
@@ -145,6 +149,7 @@ public:
             // f <- w - H[i+1, i+1] * V{i+1}
             m_fac_f.noalias() = w - m_fac_H(i, i) * v;
             m_beta = m_op.norm(m_fac_f);
+            anorm = (std::max)(anorm, (std::max)(RealScalar(abs(m_fac_H(i, i))), m_beta));
 
             // f/||f|| is going to be the next column of V, so we need to test
             // whether (V^H)B(f/||f||) ~= 0
@@ -160,8 +165,9 @@ public:
                 // of noises of rounding errors, so the test [ortho_err < eps * beta] is very
                 // likely to fail. In particular, if beta=0, then the test is ensured to fail.
                 // Hence when this happens, we force f to be zero, and then restart in the
-                // next iteration.
-                if (m_beta < beta_thresh)
+                // next iteration. The rounding errors in f are proportional to the magnitude
+                // of A, so "close to zero" is measured relative to it.
+                if (m_beta < beta_thresh * anorm)
                 {
 #ifdef YIXUAN_SPECTRA_VERIF
                     this->verif_notify(verif::EvForcedZero, i, m_beta, ortho_err);
